@@ -201,11 +201,13 @@ def one(mid, prop, apply_fn, what):
         if code == 1 and lines and mid in EXPECT_CLEAN:
             verdict, detail = "FALSE-ALARM", tail[-400:]
         elif code == 1 and lines:
-            rel = lines[0].split("replay=")[1].strip()
-            src = os.path.join(VERIF, rel)
-            if not os.path.exists(os.path.join(out, rel)) and os.path.exists(src):
-                pass
-            rc = replay(prop, repo, out, rel)
+            # (a witness of a *fixed* finding that fails again is reported first; its recorded
+            # violation class need not be the one the mutant produces, so try every line)
+            rc = None
+            for line in lines:
+                rc = replay(prop, repo, out, line.split("replay=")[1].strip())
+                if rc == 1:
+                    break
             verdict = "CAUGHT" if rc == 1 else "CAUGHT-BUT-REPLAY-%d" % rc
             detail = [l for l in tail.splitlines() if l.startswith("violation in run")][:1]
         elif code != 0:
